@@ -30,13 +30,14 @@ const rule = "case = (chain length, result vector, decorations, validator error,
 
 // Case is the replay format.
 type Case struct {
-	Vector   []int  `json:"vector"` // per chain position (leaf first): 0 Unknown 1 OK 2 NonRevokable 3 Revoked, 7 = out-of-range status
-	Decor    []int  `json:"decor"`  // per position decoration selector
-	ValErr   bool   `json:"valErr"` // validator-level error
-	Iface    string `json:"iface"`  // validator | client
-	Action   string `json:"action"` // enforce | log | skip
-	Base     string `json:"base"`   // base level the action is expressed through
-	Scheme   string `json:"scheme"` // x509 | sa
+	Vector   []int  `json:"vector"`         // per chain position (leaf first): 0 Unknown 1 OK 2 NonRevokable 3 Revoked, 7 = out-of-range status
+	Decor    []int  `json:"decor"`          // per position decoration selector
+	ValErr   bool   `json:"valErr"`         // validator-level error
+	ErrWithR bool   `json:"errWithResults"` // ... returned together with a result vector
+	Iface    string `json:"iface"`          // validator | client
+	Action   string `json:"action"`         // enforce | log | skip
+	Base     string `json:"base"`           // base level the action is expressed through
+	Scheme   string `json:"scheme"`         // x509 | sa
 	Format   string `json:"format"`
 	NilEntry bool   `json:"-"`
 	Warm     []int  `json:"warm,omitempty"` // result vector of an earlier verification on the same verifier (not judged)
@@ -106,6 +107,7 @@ func check(c Case) (string, string) {
 	}
 	if c.ValErr {
 		rev.Err = errors.New("scripted validator failure")
+		rev.ErrWithResults = c.ErrWithR
 	}
 	target := map[string]string{"authenticity": "enforce", "authenticTimestamp": "enforce", "expiry": "enforce", "revocation": c.Action}
 	level := kit.LevelFor(c.Base, target, false)
@@ -257,6 +259,9 @@ func record(rec *stats.Recorder, c Case) {
 	cl := []string{"final=" + final, "action=" + c.Action, "iface=" + c.Iface, "scheme=" + c.Scheme, "format=" + c.Format, fmt.Sprintf("len=%d", len(c.Vector)), "base=" + c.Base}
 	if c.ValErr {
 		cl = append(cl, "validator-error")
+		if c.ErrWithR {
+			cl = append(cl, "validator-error-with-results")
+		}
 	}
 	for _, d := range c.Decor {
 		if d != 0 {
@@ -271,7 +276,7 @@ func record(rec *stats.Recorder, c Case) {
 	if len(c.Warm) > 0 {
 		cl = append(cl, "reused-verifier")
 	}
-	rec.Case(cl, nt, stats.Fingerprint(fmt.Sprint(c.Vector), fmt.Sprint(c.Warm), fmt.Sprint(c.Decor), c.ValErr, c.Iface, c.Action, c.Base, c.Scheme, c.Format), func() any { return c })
+	rec.Case(cl, nt, stats.Fingerprint(fmt.Sprint(c.Vector), fmt.Sprint(c.Warm), fmt.Sprint(c.Decor), c.ValErr, c.ErrWithR, c.Iface, c.Action, c.Base, c.Scheme, c.Format), func() any { return c })
 }
 
 func evaluate(t stats.Failer, rec *stats.Recorder, c Case) {
@@ -317,7 +322,7 @@ func TestC05_Vectors(t *testing.T) {
 						for _, scheme := range []string{"x509", "sa"} {
 							for _, f := range envb.Formats {
 								for _, valErr := range []bool{false, true} {
-									evaluate(t, rec, Case{Vector: vec, Iface: iface, Action: action, Base: bases[(code+ai)%3], Scheme: scheme, Format: f, ValErr: valErr})
+									evaluate(t, rec, Case{Vector: vec, Iface: iface, Action: action, Base: bases[(code+ai)%3], Scheme: scheme, Format: f, ValErr: valErr, ErrWithR: valErr && code%2 == 0})
 								}
 							}
 						}
@@ -343,7 +348,8 @@ func TestC05_Decorated(t *testing.T) {
 		n := rapid.IntRange(1, 4).Draw(rt, "len")
 		c := Case{Iface: rp.Pick(rt, "iface", "validator", "client"), Action: rp.Pick(rt, "action", "enforce", "enforce", "log", "skip"),
 			Base: rp.Pick(rt, "base", "strict", "permissive", "audit"), Scheme: rp.Pick(rt, "scheme", "x509", "sa"),
-			Format: rp.Pick(rt, "format", envb.MTJWS, envb.MTCOSE), ValErr: rapid.IntRange(0, 9).Draw(rt, "valErr") == 0}
+			Format: rp.Pick(rt, "format", envb.MTJWS, envb.MTCOSE), ValErr: rapid.IntRange(0, 9).Draw(rt, "valErr") == 0,
+			ErrWithR: rapid.Bool().Draw(rt, "errWithResults")}
 		for i := 0; i < n; i++ {
 			c.Vector = append(c.Vector, rp.Pick(rt, "status", 1, 1, 1, 2, 0, 3, 7))
 			c.Decor = append(c.Decor, rapid.IntRange(0, 5).Draw(rt, "decor"))
